@@ -17,7 +17,11 @@ pub fn mod_(
     let y = quantity_arg!(args);
 
     let x_value = x.unsafe_value().to_f64();
-    let y_value = y.convert_to(x.unit()).unwrap().unsafe_value().to_f64();
+    let y_value = y
+        .convert_to(x.unit())
+        .map_err(|e| Box::new(RuntimeErrorKind::QuantityError(e)))?
+        .unsafe_value()
+        .to_f64();
 
     return_quantity!(x_value.rem_euclid(y_value), x.unit().clone())
 }
@@ -67,7 +71,11 @@ pub fn atan2(
     let x = quantity_arg!(args);
 
     let y_value = y.unsafe_value().to_f64();
-    let x_value = x.convert_to(y.unit()).unwrap().unsafe_value().to_f64();
+    let x_value = x
+        .convert_to(y.unit())
+        .map_err(|e| Box::new(RuntimeErrorKind::QuantityError(e)))?
+        .unsafe_value()
+        .to_f64();
 
     return_scalar!(y_value.atan2(x_value))
 }
